@@ -103,6 +103,9 @@ func loadProgram(repo string, patterns []string) (*Program, error) {
 		if fn.Object() == nil || fn.Origin() != nil && fn.Origin() != fn {
 			continue
 		}
+		if fn.Synthetic != "" {
+			continue // wrappers, thunks and bound-method closures share the method's object
+		}
 		if obj, ok := fn.Object().(*types.Func); ok {
 			k := funcObjKey(obj)
 			if old, ok := P.FuncByKey[k]; !ok || (old.Blocks == nil && fn.Blocks != nil) {
